@@ -80,15 +80,19 @@ def build(pa, rng, count, rep):
     recs, metas = [], []
     labels = ["Adj", "Noun", "Prep", "Verb"]
     shapes = [(2, 60), (3, 15), (5, 5), (2, 25), (4, 8)]
+    kinds = ["pos", "comb_abs", "comb_ord", "comb_pre", "comb_abs_explicit"]
+    tks = ["delta_empty", "rename", "permute", "shift", "scale", "catrename_order", "catrename_any", "delta_empty"]
+    it = 0
     while len(recs) < count:
         shape = rng.choice(shapes)
         c = big_continuum(pa, rng, shape, labels)
-        kind = rng.choice(["pos", "comb_abs", "comb_abs", "comb_ord", "comb_pre", "comb_abs_explicit"])
+        kind = kinds[it % len(kinds)]          # systematic: every (dissimilarity, transformation) combination
         de = rng.choice([1.0, 0.5, 2.0])
         alpha, beta = rng.choice([1, 3, 0.5]), rng.choice([1, 2, 0.5])
         d = make_dissim(pa, rng, kind, labels, de, alpha, beta)
         base = c.get_best_alignment(d).disorder
-        tk = rng.choice(["rename", "permute", "shift", "scale", "catrename_order", "catrename_any", "delta_empty"])
+        tk = tks[(it // len(kinds)) % len(tks)]
+        it += 1
         meta = {"shape": shape, "dissim": kind, "delta_empty": de, "alpha": alpha, "beta": beta, "transform": tk}
         rec = {"kind": tk, "c": [1, 1], "base": fxv(base), "other": 0, "hasgamma": 0, "gbase": 0, "gother": 0}
         anns = list(c.annotators)
